@@ -65,7 +65,23 @@ func (g *c06) shape(what string, js map[string]any) {
 	g.o.Directs = append(g.o.Directs, vcoq.Direct{What: "masked Pull: " + what, Class: "pull-event-shape", Replay: js})
 }
 
-func (g *c06) collectionStream(proto0 proto.Message, fm *fieldmaskpb.FieldMask, kind vmsg.PathKind, class string, withInclude bool) {
+type sub struct {
+	fm    *fieldmaskpb.FieldMask
+	kind  vmsg.PathKind
+	class string
+}
+
+func subsJSON(subs []sub) []any {
+	out := make([]any, len(subs))
+	for i, s := range subs {
+		out[i] = vmsg.MaskJSON(s.fm)
+	}
+	return out
+}
+
+// collectionStream: several concurrent Collection.Pull subscriptions, each with its own read mask,
+// opened before the writes; every subscriber's every event is judged against ITS mask.
+func (g *c06) collectionStream(proto0 proto.Message, subs []sub, withInclude bool) {
 	r := g.r
 	nonEmpty := func() proto.Message {
 		for {
@@ -76,51 +92,40 @@ func (g *c06) collectionStream(proto0 proto.Message, fm *fieldmaskpb.FieldMask, 
 		}
 	}
 	m1, m2 := nonEmpty(), nonEmpty()
-	if !survives(fm, m1, m2) {
-		return
+	for _, sb := range subs {
+		if !survives(sb.fm, m1, m2) {
+			return
+		}
 	}
-	js := map[string]any{"op": "Collection.Pull", "read_mask": vmsg.MaskJSON(fm), "include_non_empty": withInclude,
+	js := map[string]any{"op": "Collection.Pull", "read_masks": subsJSON(subs), "include_non_empty": withInclude,
 		"writes": []any{"Add a m1", "Update a m2 (nil update mask)", "Update a {} (only with include)", "Delete a"},
 		"m1": vmsg.JSON(m1), "m2": vmsg.JSON(m2)}
 	c := resource.NewCollection()
 	ctx, cancel := context.WithCancel(context.Background())
 	defer cancel()
-	opts := []resource.ReadOption{resource.WithReadMask(fm), resource.WithBackpressure(true)}
-	if withInclude {
-		opts = append(opts, resource.WithInclude(func(_ string, m proto.Message) bool { return m != nil && populatedCount(m) > 0 }))
-	}
-	ch := c.Pull(ctx, opts...)
-	// (Collection.PullID is not used here: it opens its inner Pull on a goroutine, so writes issued
-	// right after PullID returns may precede the subscription and the events cannot be aligned)
-	var idch <-chan *resource.ValueChange
-	var evs []*resource.CollectionChange
-	var idevs []*resource.ValueChange
-	done := make(chan struct{})
-	go func() {
-		defer close(done)
-		for ch != nil || idch != nil {
-			select {
-			case e, ok := <-ch:
-				if !ok {
-					ch = nil
-					continue
-				}
-				evs = append(evs, e)
-			case e, ok := <-idch:
-				if !ok {
-					idch = nil
-					continue
-				}
-				idevs = append(idevs, e)
-			}
+	evs := make([][]*resource.CollectionChange, len(subs))
+	dones := make([]chan struct{}, len(subs))
+	for i, sb := range subs {
+		opts := []resource.ReadOption{resource.WithReadMask(sb.fm), resource.WithBackpressure(true)}
+		if withInclude {
+			opts = append(opts, resource.WithInclude(func(_ string, m proto.Message) bool { return m != nil && populatedCount(m) > 0 }))
 		}
-	}()
+		// (Collection.PullID is not used: it opens its inner Pull on a goroutine, so writes issued right
+		// after PullID returns may precede the subscription and the events cannot be aligned)
+		ch := c.Pull(ctx, opts...)
+		dones[i] = make(chan struct{})
+		go func(i int) {
+			defer close(dones[i])
+			for e := range ch {
+				evs[i] = append(evs[i], e)
+			}
+		}(i)
+	}
 	type exp struct {
 		typ      types.ChangeType
 		old, new proto.Message // deep copies of what was stored
 	}
 	var want []exp
-	var stored []proto.Message // successive stored values of "a"
 	fail := func(err error) bool {
 		if err != nil {
 			js["error"] = err.Error()
@@ -135,14 +140,12 @@ func (g *c06) collectionStream(proto0 proto.Message, fm *fieldmaskpb.FieldMask, 
 	}
 	c1 := proto.Clone(s1)
 	want = append(want, exp{types.ChangeType_ADD, nil, c1})
-	stored = append(stored, c1)
 	s2, err := c.Update("a", proto.Clone(m2))
 	if fail(err) {
 		return
 	}
 	c2 := proto.Clone(s2)
 	want = append(want, exp{types.ChangeType_UPDATE, c1, c2})
-	stored = append(stored, c2)
 	last := c2
 	if withInclude {
 		// an update after which the item no longer matches the include filter: REMOVE with the old value
@@ -150,10 +153,8 @@ func (g *c06) collectionStream(proto0 proto.Message, fm *fieldmaskpb.FieldMask, 
 		if fail(err) {
 			return
 		}
-		c3 := proto.Clone(s3)
 		want = append(want, exp{types.ChangeType_REMOVE, c2, nil})
-		stored = append(stored, c3)
-		last = c3
+		last = proto.Clone(s3)
 	}
 	// the stored message must still be what the last write returned (Pull filters clones)
 	if cur, ok := c.Get("a"); !ok || !proto.Equal(cur, last) {
@@ -166,56 +167,66 @@ func (g *c06) collectionStream(proto0 proto.Message, fm *fieldmaskpb.FieldMask, 
 		want = append(want, exp{types.ChangeType_REMOVE, last, nil})
 	}
 	// backpressure: the writes above only returned once their events were taken; a short grace period
-	// covers the last hop to the collector goroutine
+	// covers the last hop to the collector goroutines
 	time.Sleep(50 * time.Millisecond)
 	cancel()
-	<-done
-	if len(evs) != len(want) {
-		js["events"] = len(evs)
-		js["expected_events"] = len(want)
-		g.shape(fmt.Sprintf("%d events delivered for %d writes with backpressure", len(evs), len(want)), js)
-		return
+	for _, d := range dones {
+		<-d
 	}
-	for i, e := range evs {
-		w := want[i]
-		what := fmt.Sprintf("%d:%s", i, w.typ)
-		if e.ChangeType != w.typ || (e.NewValue == nil) != (w.new == nil) || (e.OldValue == nil) != (w.old == nil) {
-			js["event_index"] = i
-			g.shape(fmt.Sprintf("event %d is %v (old %v, new %v), expected %v", i, e.ChangeType, e.OldValue != nil, e.NewValue != nil, w.typ), js)
+	for si, sb := range subs {
+		if len(evs[si]) != len(want) {
+			js["subscriber"] = si
+			js["events"] = len(evs[si])
+			js["expected_events"] = len(want)
+			g.shape(fmt.Sprintf("subscriber %d: %d events delivered for %d writes with backpressure", si, len(evs[si]), len(want)), js)
 			continue
 		}
-		if w.new != nil {
-			g.pair(opCollPullNew, w.new, e.NewValue, fm, kind, class, what, js)
-		}
-		if w.old != nil {
-			g.pair(opCollPullOld, w.old, e.OldValue, fm, kind, class, what, js)
+		for i, e := range evs[si] {
+			w := want[i]
+			what := fmt.Sprintf("sub%d/%d:%d:%s", si, len(subs), i, w.typ)
+			if e.ChangeType != w.typ || (e.NewValue == nil) != (w.new == nil) || (e.OldValue == nil) != (w.old == nil) {
+				js["event_index"] = i
+				g.shape(fmt.Sprintf("subscriber %d event %d is %v (old %v, new %v), expected %v", si, i, e.ChangeType, e.OldValue != nil, e.NewValue != nil, w.typ), js)
+				continue
+			}
+			if w.new != nil {
+				g.pair(opCollPullNew, w.new, e.NewValue, sb.fm, sb.kind, sb.class, what, js)
+			}
+			if w.old != nil {
+				g.pair(opCollPullOld, w.old, e.OldValue, sb.fm, sb.kind, sb.class, what, js)
+			}
 		}
 	}
-	_, _ = idevs, stored
 }
 
-func (g *c06) valueStream(proto0 proto.Message, fm *fieldmaskpb.FieldMask, kind vmsg.PathKind, class string) {
+// valueStream: several concurrent Value.Pull subscriptions with different read masks on one Value
+func (g *c06) valueStream(proto0 proto.Message, subs []sub) {
 	r := g.r
 	m0 := vmsg.RandMsg(r, proto0, vmsg.RandCfg{FieldPct: 40, Depth: 2, MaxList: 2})
 	m1 := vmsg.RandMsg(r, proto0, vmsg.RandCfg{FieldPct: 40, Depth: 2, MaxList: 2})
 	m2 := vmsg.RandMsg(r, proto0, vmsg.RandCfg{FieldPct: 25, Depth: 2, MaxList: 2})
-	if !survives(fm, m0, m1, m2) {
-		return
+	for _, sb := range subs {
+		if !survives(sb.fm, m0, m1, m2) {
+			return
+		}
 	}
-	js := map[string]any{"op": "Value.Pull", "read_mask": vmsg.MaskJSON(fm), "writes": []any{"initial m0", "Set m1", "Set m2"},
+	js := map[string]any{"op": "Value.Pull", "read_masks": subsJSON(subs), "writes": []any{"initial m0", "Set m1", "Set m2"},
 		"m0": vmsg.JSON(m0), "m1": vmsg.JSON(m1), "m2": vmsg.JSON(m2)}
 	v := resource.NewValue(resource.WithInitialValue(proto.Clone(m0)))
 	ctx, cancel := context.WithCancel(context.Background())
 	defer cancel()
-	ch := v.Pull(ctx, resource.WithReadMask(fm), resource.WithBackpressure(true))
-	var evs []*resource.ValueChange
-	done := make(chan struct{})
-	go func() {
-		defer close(done)
-		for e := range ch {
-			evs = append(evs, e)
-		}
-	}()
+	evs := make([][]*resource.ValueChange, len(subs))
+	dones := make([]chan struct{}, len(subs))
+	for i, sb := range subs {
+		ch := v.Pull(ctx, resource.WithReadMask(sb.fm), resource.WithBackpressure(true))
+		dones[i] = make(chan struct{})
+		go func(i int) {
+			defer close(dones[i])
+			for e := range ch {
+				evs[i] = append(evs[i], e)
+			}
+		}(i)
+	}
 	want := []proto.Message{proto.Clone(m0)}
 	for _, m := range []proto.Message{m1, m2} {
 		s, err := v.Set(proto.Clone(m))
@@ -230,41 +241,60 @@ func (g *c06) valueStream(proto0 proto.Message, fm *fieldmaskpb.FieldMask, kind 
 	}
 	time.Sleep(50 * time.Millisecond)
 	cancel()
-	<-done
-	if len(evs) != len(want) {
-		js["events"] = len(evs)
-		g.shape(fmt.Sprintf("%d events delivered for a seed and 2 writes with backpressure", len(evs)), js)
-		return
+	for _, d := range dones {
+		<-d
 	}
-	for i, e := range evs {
-		if e.Value == nil {
-			g.shape(fmt.Sprintf("event %d has no value", i), js)
+	for si, sb := range subs {
+		if len(evs[si]) != len(want) {
+			js["subscriber"] = si
+			js["events"] = len(evs[si])
+			g.shape(fmt.Sprintf("subscriber %d: %d events delivered for a seed and 2 writes with backpressure", si, len(evs[si])), js)
 			continue
 		}
-		g.pair(opValPull, want[i], e.Value, fm, kind, class, fmt.Sprintf("%d", i), js)
+		for i, e := range evs[si] {
+			if e.Value == nil {
+				g.shape(fmt.Sprintf("subscriber %d event %d has no value", si, i), js)
+				continue
+			}
+			g.pair(opValPull, want[i], e.Value, sb.fm, sb.kind, sb.class, fmt.Sprintf("sub%d/%d:%d", si, len(subs), i), js)
+		}
 	}
 }
 
-// streams: a few dozen event streams per run
+// streams: a few dozen event streams per run, each with 1-3 concurrent subscriptions (own masks)
 func (g *c06) streams(n int) {
 	r := g.r
 	classes := []string{"single", "single", "multi", "parent+child", "child+parent", "through-repeated-message", "nil", "empty"}
 	for i := 0; i < n; i++ {
 		proto0 := msgTypes[r.Intn(len(msgTypes))]
-		// the mask is built against a populated sample of the type
+		// the masks are built against a populated sample of the type
 		sample := vmsg.RandMsg(r, proto0, vmsg.RandCfg{FieldPct: 60, Depth: 2, MaxList: 2})
-		class := classes[r.Intn(len(classes))]
-		fm, kind, ok := g.maskFor(sample, class)
-		if !ok {
+		var subs []sub
+		nsub := 1 + r.Intn(3)
+		if i%3 == 2 && nsub < 2 {
+			nsub = 2 // Value.Pull events are shared objects on the bus: always more than one subscriber
+		}
+		for j := 0; j < nsub; j++ {
+			class := classes[r.Intn(len(classes))]
+			if j == 1 && r.Bool() {
+				class = "nil" // an unmasked subscriber next to a masked one
+			}
+			fm, kind, ok := g.maskFor(sample, class)
+			if !ok {
+				continue
+			}
+			subs = append(subs, sub{fm, kind, class})
+		}
+		if len(subs) == 0 {
 			continue
 		}
 		switch i % 3 {
 		case 0:
-			g.collectionStream(proto0, fm, kind, class, false)
+			g.collectionStream(proto0, subs, false)
 		case 1:
-			g.collectionStream(proto0, fm, kind, class, true)
+			g.collectionStream(proto0, subs, true)
 		default:
-			g.valueStream(proto0, fm, kind, class)
+			g.valueStream(proto0, subs)
 		}
 	}
 }
